@@ -18,13 +18,18 @@ def run():
     n = 4 if quick else 5
     stats = b.notes.get('stats', {})
     cov = b.coverage(
-        rule="case = one grammar (plain tuple productions, ordered alternatives) under one of 6 tokenizer "
+        rule="case = one grammar (plain tuple productions, ordered alternatives) under one of 9 tokenizer "
              "configurations (single-character tokens; synonyms + keywords + comments, two terminal choices; "
              "explicit skip_tokens with 'SPACE' as an ordinary terminal; 2 configurations - family kwonsyn - in "
              "which keyword entries are keyed by a SYNONYM name: two regex groups renamed to one token NAME / LTR "
              "with keywords ('NAME','let')->LET, ('NAME','in')->IN resp. ('LTR','k'|'K')->KEY, the plain token and "
              "the keywords made of it all being terminals of the grammar, token value = text of the named group "
-             "which for back-quoted identifiers is a part of the token text), one of 3 non-terminal name sets, empty "
+             "which for back-quoted identifiers is a part of the token text; 3 configurations - family kwother - in "
+             "which a token of ANOTHER kind carries exactly a keyword's text and must keep its own name: quoted strings "
+             "\"if\" / 'if' (named group without the quotes, renamed STR) and variables $if next to ('WORD','if')->IF; "
+             "escaped characters ~k / @0 (renamed ESC) next to ('LTR','k')->KEY, ('DIG','0')->NIL and a letter z next to "
+             "('ESC','z')->EZ; the same text being a keyword of two kinds, ('LTR','k')->KEY and ('ESC','k')->EKEY), "
+             "one of 3 non-terminal name sets, empty "
              "production written None or (); each case = both smart_factorization settings x every token string "
              f"of length <= {n} over the grammar's 2-3 terminals (text rendered from the token list with seeded "
              "token texts / separators / comments, so the expected yield is known by construction). Grammar "
@@ -44,8 +49,18 @@ def run():
              "kwonsyn = the families above once more under each of the 2 keyword-on-synonym configurations (exh1 all, "
              f"exh2 {'1 %' if quick else '10 %'}, prefix k=2 {'10 %' if quick else '50 %'}, k=3 {'0.5 %' if quick else '10 %'}, "
              f"rollback {'0.5 %' if quick else '10 %'}, nested3 {'0.2 %' if quick else '3 %'}, seq {'1 %' if quick else '10 %'}, "
-             f"{150 if quick else 3000} random). "
-             "evaluations = grammars + parse calls. non-trivial = grammar accepted by the constructor, >= 1 input "
+             f"{150 if quick else 3000} random); "
+             "kwother = the same under each of the 3 other-kind-carries-keyword-text configurations (exh1 "
+             f"{'50 %' if quick else 'all'}, exh2 {'0.3 %' if quick else '5 %'}, prefix k=2 {'3 %' if quick else '30 %'}, "
+             f"k=3 {'0.2 %' if quick else '5 %'}, rollback {'0.2 %' if quick else '5 %'}, nested3 "
+             f"{'0.1 %' if quick else '2 %'}, seq {'0.3 %' if quick else '5 %'}, {90 if quick else 2000} random). "
+             "Call sequences on one parser object: all inputs of a grammar are parsed by the same two parsers; in "
+             f"addition, after {'every 4th (by CRC-32 of the text)' if quick else 'every'} first parse that returns a "
+             "(correct) tree the session is continued: the returned tree is edited in place (one of parser.cleanup(tree) "
+             "= the documented in-place cleanup / overwritten by the harness: nodes renamed, child lists emptied / both), "
+             "the SAME text is parsed raw again, then with do_cleanup=True, then raw again; both repeated raw trees are "
+             "checked by the same oracle (failure class 'on-reparse'). "
+             "evaluations = grammars + parse calls (first and repeated). non-trivial = grammar accepted by the constructor, >= 1 input "
              "returns a tree and >= 1 input is rejected with ParsingError",
         exhaustive=False,
         extra={'per_family': stats, 'diagnostic_counts_by_category': b.notes.get('diag_counts', {})})
@@ -63,7 +78,7 @@ def run():
                    "grammars rejected by the constructor (any exception) and parse calls that raise or exceed "
                    f"{driver.PARSE_BUDGET_S} s CPU are skipped: rejection and termination are C02/C03's business",
                    "a childless non-terminal node may carry value None or []",
-                   "the expected token list relies on regular expressions (library `re`) matching the 6 fixed "
+                   "the expected token list relies on regular expressions (library `re`) matching the 9 fixed "
                    "tokenizer patterns as written; every rendered text is cross-checked against a reference tokenizer "
                    "written from the constructor's documentation (token name = synonym of the matching group's name if "
                    "it has one; then keywords[(token name, value)] if listed - the key of a keyword entry is the token "
@@ -73,4 +88,9 @@ def run():
                    "statement) and 'only one setting returns a tree' are supporting diagnostics, not violations: on the "
                    "unchanged tree the two settings choose different, equally valid derivations for some ambiguous "
                    "grammars (e.g. E -> Y b | Y | X a; X -> a; Y -> a | a a on 'a a')",
+                   "call sequences: only repetitions of the SAME text on the same parser with the edits of the returned "
+                   "tree named in the rule (cleanup / overwrite) and do_cleanup alternating False, False, True, False; "
+                   "src_name, debug and start_symbol_name are left at their defaults; trees returned with "
+                   "do_cleanup=True are not examined (the statement is about the tree before cleanup); a repeated call "
+                   "that raises although the first returned a tree is a supporting diagnostic (acceptance: C02)",
                    f"bounded: inputs of at most {n} tokens; grammar sizes as in the rule"], t0)
